@@ -185,6 +185,10 @@ class Own:
                     if d.startswith("self._current") or d.startswith("self._history") or d.startswith("self._results_dict") \
                             or d.startswith("instance._current") or d.startswith("instance._history"):
                         writes.append((d.split(".", 1)[1].split(".")[0], R, s.lineno, "store"))
+                    elif isinstance(t, ast.Subscript) and isinstance(base, ast.Name) and (R - {"SCALAR"}):
+                        # local_container[i] = value: the container now holds (references to) the value's objects — also when the
+                        # container is a numpy object array
+                        env[base.id] = env.get(base.id, frozenset()) | frozenset(R - {"SCALAR"})
                     elif isinstance(t, ast.Attribute) and d == "self":
                         env["self." + t.attr] = env.get("self." + t.attr, frozenset()) | R
                         if isinstance(s.value, ast.Tuple):      # element-wise regions of a stored tuple literal (same function only)
@@ -363,6 +367,10 @@ class Own:
         if nd in ALIAS_CALLS:
             R = args[0] if args else F()
             return F({"FRESH"}) if (R & CONT) else (R or F({"SCALAR"}))
+        if nd in ("enumerate", "zip", "reversed", "iter", "sorted", "filter", "map"):
+            # iteration helpers hand out the elements of their arguments
+            out = frozenset().union(*[a - CONT for a in args]) if args else frozenset()
+            return out or F({"SCALAR"})
         if nd in SHALLOW_CALLS:
             R = args[0] if args else F()
             return F({"FRESH"}) | F(R - CONT - {"SCALAR"})
